@@ -107,5 +107,26 @@ def compute(f, loop_bound=2):
         cells[fn] = table
     out = {"loop_bound": loop_bound, "evaluator": disp["fn"], "coroutine": disp["coroutine"], "rows": rows, "opfns": opfns,
            "op_of_kind": {k: sorted(v) for k, v in op_of_kind.items()}, "cells": cells}
+    # the context's lookup methods are private: they are named after their role (the method a Reference / Symbol /
+    # Function node calls) so that the specification does not depend on what the crate calls them today
+    import anchors
+    try:
+        a = anchors.resolve(f, table=out)
+        out["anchors"] = a
+        ren = {"%s::%s(" % (a["ctx_short"], actual): "%s::%s(" % (a["ctx_short"], r) for actual, r in a["role_names"].items() if actual != r}
+        names = {"%s::%s" % (a["ctx_short"], actual): "%s::%s" % (a["ctx_short"], r) for actual, r in a["role_names"].items() if actual != r}
+    except Exception:
+        ren, names = {}, {}
+    if ren:
+        def fix(x):
+            if isinstance(x, str):
+                for o, n in ren.items():
+                    x = x.replace(o, n)
+                return names.get(x, x)
+            if isinstance(x, tuple):
+                return tuple(fix(y) for y in x)
+            return x
+        for kind in rows:
+            rows[kind] = [{"conds": fix(pth["conds"]), "events": fix(pth["events"]), "ret": fix(pth["ret"]), "flags": pth["flags"]} for pth in rows[kind]]
     _cache[key] = out
     return out
